@@ -56,6 +56,47 @@ theorem C10_regexp_substr_full_false : ¬ C10_regexp_substr_Full := by
   have := h (fun _ g => [g]) [] { params := some ['e'] } (by decide)
   revert this; decide
 
+/-! ### REGEXP_REPLACE -/
+
+/-- **REGEXP_REPLACE is answered only in the form whose documented meaning is "replace every match"**: for a literal
+    or `$$…$$` pattern (the latter is made a literal by `dollar_quoted_string`, which runs before), the rewrite adds
+    the global flag exactly when no position/occurrence/parameters argument was given — then the documented defaults
+    (position 1, occurrence 0 = all) make "every match" the documented result, with replacement defaulting to '' —
+    and every call that gives one of them is rejected, whatever its value. -/
+theorem C10_regexp_replace (p : StrNode) (hp : p ≠ .expr) (a : RrArgs)
+    (hpos : (a.position.isSome ∨ a.occurrence.isSome ∨ a.params.isSome) → a.hasReplacement = true) :   -- arguments are positional
+    (∀ d, rrRule (dollarQuotedString p) a = .rewritten d →
+        a.position = none ∧ a.occurrence = none ∧ a.params = none ∧ a.docIsReplaceAll = true ∧ d = !a.hasReplacement) ∧
+    ((a.position.isSome ∨ a.occurrence.isSome ∨ a.params.isSome) → rrRule (dollarQuotedString p) a = .rejected) := by
+  have hl : dollarQuotedString p = .lit := by cases p <;> first | rfl | exact absurd rfl hp
+  obtain ⟨r, po, oc, pa⟩ := a
+  by_cases hany : (po.isSome ∨ oc.isSome ∨ pa.isSome)
+  · have hr : r = true := hpos hany
+    subst hr
+    have hrej : rrRule (dollarQuotedString p) ⟨true, po, oc, pa⟩ = .rejected := by
+      cases po <;> cases oc <;> cases pa <;> simp [rrRule, hl, RrArgs.count] at hany ⊢
+    refine ⟨fun d h => ?_, fun _ => hrej⟩
+    rw [hrej] at h; cases h
+  · have h1 : po = none := by cases po <;> simp at hany ⊢
+    have h2 : oc = none := by cases oc <;> simp at hany ⊢
+    have h3 : pa = none := by cases pa <;> simp at hany ⊢
+    subst h1 h2 h3
+    refine ⟨fun d h => ?_, fun h => absurd h hany⟩
+    cases r <;> simp [rrRule, hl, RrArgs.count] at h <;> simp [RrArgs.docIsReplaceAll, ← h]
+
+example : rrRule (dollarQuotedString .raw) { hasReplacement := true } = .rewritten false := by decide
+
+/-- **Order constraint**: were `dollar_quoted_string` to run AFTER `regex_replace`, a `$$…$$` pattern would not be
+    a literal yet, the rewrite would be skipped and DuckDB would replace only the first match -/
+theorem C10_dollar_order : rrRule .raw { hasReplacement := true } = .untouched ∧
+    rrRule (dollarQuotedString .raw) { hasReplacement := true } = .rewritten false := by decide
+
+/-- C10/regexp-pattern-backslash-unescaped-twice — the regex `\\\\` (one literal backslash; `$$\\\\$$`, or `'\\\\\\\\'` in a
+    single-quoted constant) reaches DuckDB as a lone `\\`: the rewrite un-escapes text the tokenizer already un-escaped;
+    patterns without a doubled backslash are unchanged -/
+theorem finding_regexp_pattern_unescaped_twice :
+    unescapeBackslashes ['\\', '\\'] = ['\\'] ∧ unescapeBackslashes ['\\', 'd', '+'] = ['\\', 'd', '+'] := by decide
+
 /-! ### TO_NUMBER / TO_DECIMAL / TO_NUMERIC -/
 
 /-- **Overload assignment**: for every argument list Snowflake has an overload for, `_get_to_number_args` applied
